@@ -20,5 +20,5 @@ for f in k['findings']:
     if f['status']!='fixed': continue
     args=extra.get(f['id'],["--runs","40000"])
     print("==",f['id'],flush=True)
-    subprocess.call(["/verif/tools/regen_fixed.sh",f['commit'],f['property'],f['id']]+args)
+    subprocess.call(["/verif/tools/regen_fixed.sh",f.get('regen_revert',f['commit']),f['property'],f['id']]+args)
 PY
